@@ -272,7 +272,10 @@ def run_shard(ctx, spec):
             res = scr.binary_case_with_curve(c, curve, n)
             if res.cpu_s > core.CPU_BOUND_S or res.timed_out:
                 break  # one witness per family is enough; larger instances would only burn time
-            n += (2 if name.startswith("doubling") else 4) if n < 40 else 16
+            if name.startswith("deep-"):
+                n = int(n * 1.6) + 1      # cost grows like n^4: geometric steps keep the whole curve near the cost of its last point
+            else:
+                n += (2 if name.startswith("doubling") else 4) if n < 40 else 16
         ctx.extra.setdefault("scaling_curves", {})[name] = curve
     elif kind == "doc-product":
         _, idx, n = spec
@@ -661,7 +664,7 @@ def main(tier, seed):
               "distinct_nontrivial = distinct non-empty inputs"
               % (len(fam.TOKENS), 2 if tier == "quick" else 3)),
         required={"inproc_cases": 5000, "binary_runs": 500, "inproc_error_free": 50, "typeform_position_pairs": 300,
-                  "scaling_instances": 20, "cmdline_runs": 300, "doc_indentation_cases": 100, "doc_product_cases": 1000, "eol_defect_cases": 1000, "truncation_cases": 1500, "asan.truncation_cases": 1500, "alias_graph_cases": 5000, "keyword_name_cases": 900, "large_input_runs": 6,
+                  "scaling_instances": 20, "cmdline_runs": 300, "doc_indentation_cases": 100, "doc_product_cases": 1000, "eol_defect_cases": 1000, "truncation_cases": 1500, "asan.truncation_cases": 1500, "alias_graph_cases": 5000, "keyword_name_cases": 900, "large_input_runs": 12,
                   "asan.inproc_cases": 1500, "asan.binary_runs": 300, "asan.valid_model_programs": 200,
                   **({"fuzz_executions": 200000, "fuzz_coverage_edges": 3000} if tier == "thorough" else {})},
         assumptions=["the time bound is decided on CPU time (rusage / thread clock), never on wall-clock; a watchdog firing below the "
